@@ -139,7 +139,10 @@ package memmetrics
 //@ type RTMetrics
 //@   immutable total netErrors newCounter newHist statusCodesLock histogramLock
 //@   guarded_by statusCodesLock: statusCodes
+//@   protects statusCodesLock: total netErrors
 //@   guarded_by histogramLock: histogram
+//@   guards statusCodesLock: RollingCounter.lastUpdated RollingCounter.countedBuckets RollingCounter.lastBucket RollingCounter.values RollingCounter.gsum RollingCounter.tclean elems(int)
+//@   lockinv statusCodesLock (m): counters_ok: metricsOK(m)
 
 //@ type RollingHDRHistogram
 //@   extsync
@@ -169,7 +172,6 @@ package memmetrics
 //@   props C18
 //@   assume clock_stable
 //@   requires m != nil
-//@   assume exclusive_access_to_counters: metricsOK(m)
 //@   modifies everything
 //@   ensures total_counts_every_response: callarg(Inc, 0, 0) == m.total && callarg(Inc, 0, 1) == 1
 //@   ensures gateway_errors_are_network_errors: (code == 502 || code == 504) ==> calls(Inc) == 2 && callarg(Inc, 1, 0) == m.netErrors && callarg(Inc, 1, 1) == 1
@@ -178,9 +180,9 @@ package memmetrics
 
 //@ func (*RTMetrics).NetworkErrorRatio
 //@   props C18
+//@   atomic m.statusCodesLock
 //@   assume clock_stable
 //@   requires m != nil
-//@   assume exclusive_access_to_counters: metricsOK(m)
 //@   modifies elems(m.total.values), elems(m.netErrors.values), m.total.tclean, m.netErrors.tclean
 //@   ensures empty_is_zero: callres(Count, 0, 0) == 0 ==> result == 0.0 && callarg(Count, 0, 0) == m.total
 //@   ensures ratio: calls(Count) == 3 && callres(Count, 0, 0) != 0 ==> callarg(Count, 1, 0) == m.netErrors && callarg(Count, 2, 0) == m.total && result == real(callres(Count, 1, 0)) / real(callres(Count, 2, 0))
@@ -202,3 +204,9 @@ package memmetrics
 //@   props C18
 //@   trusted
 //@   requires h != nil
+
+//@ func (*RTMetrics).Export
+//@   props C09
+//@   atomic m.statusCodesLock
+//@   modifies everything
+//@   ensures private_copy: result != nil && fresh(result)
